@@ -44,6 +44,7 @@ ASSUMPTIONS = [
 CORRUPT_CLASSES = ["magic", "command", "length-up", "length-down", "checksum", "payload"]
 GATES = {
     "object-edit-histories": ["reuse:header-edited-then-serialized"],
+    "constructor-arguments": ["ctor-args:start-height=0", "ctor-args:other"],
     "primitive-monitors-ran": ["encode_varint", "read_varint", "encode_varstr", "read_varstr", "int_to_little_endian", "little_endian_to_int",
                                "int_to_big_endian", "big_endian_to_int", "int_to_byte", "byte_to_int"],
     "envelope-monitors-ran": ["NetworkEnvelope.serialize", "NetworkEnvelope.parse"],
@@ -913,13 +914,23 @@ def wl_messages(ctx, rng, idx, n):
     # BIP157 requests
     for r in range(reps):
         ft, sh, stop = edge(rng, 1), edge(rng, 4), h32(rng)
+        if r % 5 == 0:
+            sh = 0  # the genesis height
         for cls in (cf.GetCFiltersMessage, cf.GetCFHeadersMessage):
             o = outcome(cls, ft, sh, stop)
             if o[0] == "ok":
-                outcome(o[1].serialize)
+                so = outcome(o[1].serialize)
+                # what was *given to the constructor* is what must be on the wire (the serialize contract only
+                # sees the object's fields, i.e. whatever the constructor stored)
+                ctx.monitor("message-from-constructor-arguments")
+                ctx.count("ctor-args:start-height=0" if sh == 0 else "ctor-args:other")
+                if so[0] == "ok" and so[1] != p2p.getcfilters_payload(ft, sh, stop):
+                    _viol(ctx, "request-does-not-carry-constructor-arguments:" + cls.__name__, f"filter_type={ft} start_height={sh}", {"op": "getcf-ctor", "cls": cls.__name__, "ft": ft, "sh": sh, "stop": stop})
         o = outcome(cf.GetCFCheckPointMessage, ft, stop)
         if o[0] == "ok":
-            outcome(o[1].serialize)
+            so = outcome(o[1].serialize)
+            if so[0] == "ok" and so[1] != p2p.getcfcheckpt_payload(ft, stop):
+                _viol(ctx, "request-does-not-carry-constructor-arguments:GetCFCheckPointMessage", f"filter_type={ft}", {"op": "getcf-ctor", "cls": "GetCFCheckPointMessage", "ft": ft, "stop": stop})
     # cfilter (parse only; the filter bytes must be a decodable Golomb-coded set because the constructor decodes them)
     for nel in [0, 1, 2, 3, 10] + ([90, 120] if idx % 2 == 0 else []) + [rng.randrange(0, 30) for _ in range(reps // 2)]:
         block_hash = h32(rng)
